@@ -127,7 +127,21 @@ inductive SStep
   | ticks (n : Nat)
   deriving Repr
 
-def noParams : Params := { passive := false, failDur := 0, maxFails := 1, retries := 0, maxReq := 0, strikes := 0 }
+def noParams : Params :=
+  { passive := false, failDur := 0, maxFails := 1, retries := 0, maxReq := 0, firstMax := 0, badStatus := [] }
+
+/-- the status code behind an answer token of the wire syntax (`none` = not a complete answer) -/
+def answerStatus : String → Option Nat
+  | "ok" => some 200
+  | "e5" => some 500
+  | "c404" => some 404
+  | "c429" => some 429
+  | "c502" => some 502
+  | "c503" => some 503
+  | "hup" => some 200   -- 200 and a body that breaks off
+  | "pan" => some 200   -- 200, then a response handler panics
+  | "her" => some 200   -- 200, then a response handler fails
+  | _ => none
 
 def isParked (s : State) (r : Nat) : Bool :=
   match pcOf s r with
@@ -201,19 +215,23 @@ def sstep (d : DState) : SStep → Option (DState × String)
       match d.s.reqs[r]? with
       | none => none
       | some q =>
-        if what == "ok" then (endAttempt d.s r .ok).map fun s1 => ({ d with s := s1 }, "ok")
-        else if what == "e5" then
-          match strikesN d.s r (if q.par.counting then q.par.strikes else 0) with
-          | none => none
-          | some s1 => (endAttempt s1 r .ok).map fun s2 => ({ d with s := s2 }, "ok")
-        else if what == "rst" then
+        if what == "rst" then
+          -- the connection is closed before any answer: RoundTrip fails
           match endAttempt d.s r .upstreamErr with
           | none => none
           | some s1 => continueOrRet d s1 r "err"
-        else if what == "hup" then (endAttempt d.s r .panic).map fun s1 => ({ d with s := s1 }, "panic")
-        else if what == "pan" then (endAttempt d.s r .panic).map fun s1 => ({ d with s := s1 }, "panic")
-        else if what == "her" then (endAttempt d.s r .handlerErr).map fun s1 => ({ d with s := s1 }, "err")
-        else none
+        else
+          match answerStatus what with
+          | none => none
+          | some code =>
+            -- RoundTrip returned a response: passive status strikes first (reverseproxy.go:915-929),
+            -- then response handlers / the body copy
+            match strikesN d.s r (if q.par.counting then strikeCount q.par.badStatus code else 0) with
+            | none => none
+            | some s1 =>
+              if what == "hup" || what == "pan" then (endAttempt s1 r .panic).map fun s2 => ({ d with s := s2 }, "panic")
+              else if what == "her" then (endAttempt s1 r .handlerErr).map fun s2 => ({ d with s := s2 }, "err")
+              else (endAttempt s1 r .ok).map fun s2 => ({ d with s := s2 }, "ok")
     else none
   | .abort r =>
     if isParked d.s r then (endAttempt d.s r .clientAbort).map fun s1 => ({ d with s := s1 }, "ok")
